@@ -2,6 +2,7 @@ import IbModel.Proofs.JoinSpec
 import IbModel.Proofs.JoinCount
 import IbModel.Proofs.JoinEngine
 import IbModel.Model.Program
+import IbModel.Proofs.JoinX
 /-!
 # C07 — joins return exactly the relational join of their two inputs
 
@@ -427,5 +428,52 @@ example : execSeq [dummySource, joinNode .inner []
       [dummySource, joinNode .inner [vecSource Lmm] [vecSource Rmm]]] = .error .emptyBuf := by rfl
 
 end Examples
+
+/-! ## §7 the right side need not be a fresh collection: another `Pipeline`, a self-join, shared-prefix sides, sibling joins
+
+`join_*` stores two SNAPSHOTS (`chain_from(&self.pipeline, self.id)`, `chain_from(&right.pipeline, right.id)`) in
+the `CoGroup` node, so where the right collection lives and what it shares with the left one is invisible to the
+engines. `Model/ProgramJoinX.lean` adds those origins to the program language (`XStep`; harness `Step::JoinX`,
+request kind `PIPEJ`); `desugar` rewrites such a program into the one with FRESH right sides. -/
+
+/-- the join node only ever sees what its two side chains return: two pairs of sides with the same sub-plan results
+    are indistinguishable downstream (in particular `right = left`, or `right` an extension of a prefix of `left`) -/
+theorem joinNode_sides_only (k : JoinKind) (left right left' right' rest : List (Node Part)) (lp rp : Part)
+    (hl : runSubSeq left = .ok lp) (hr : runSubSeq right = .ok rp)
+    (hl' : runSubSeq left' = .ok lp) (hr' : runSubSeq right' = .ok rp) :
+    execSeq (dummySource :: joinNode k left right :: rest)
+      = execSeq (dummySource :: joinNode k left' right' :: rest) := by
+  rw [join_downstream k left right rest lp rp hl hr, join_downstream k left' right' rest lp rp hl' hr']
+
+/-- SELF-join: both sides are the same chain; the result is the join of that collection's rows with themselves -/
+theorem self_join_result (k : JoinKind) (side rest : List (Node Part)) (p : Part) (h : runSubSeq side = .ok p) :
+    execSeq (dummySource :: joinNode k side side :: rest) = execSeq (.materialized (joinExec k p p) :: rest) :=
+  join_downstream k side side rest p p h h
+
+/-- the lineage of a program with cross-pipeline / self / shared-prefix / sibling joins IS the lineage of the program
+    with fresh right sides (`desugar`): a branched right side `done ++ rs` over a fresh copy of the source is the
+    same chain value as the shared one -/
+theorem joinx_chain_eq_fresh (src : List Val) (xs : List XStep) :
+    litChainX src xs = litChain src (desugar src xs) := by
+  have h := applyXSteps_eq_fresh src xs []
+  simpa [litChainX, desugar, litChain, applySteps_nil] using h
+
+/-- … hence both engines return on it exactly what they return on the fresh-right-side program, for every
+    partition count — every theorem about `runSeq` / `runPar` (relational exactness §1–§2, mode independence §5 and
+    C01, nested-join rejection §4) transfers as is -/
+theorem joinx_eq_fresh (src : List Val) (xs : List XStep) :
+    runSeqX src xs = runSeq src (desugar src xs) ∧ ∀ n, runParX src xs n = runPar src (desugar src xs) n := by
+  unfold runSeqX runParX runSeq runPar
+  rw [joinx_chain_eq_fresh]
+  exact ⟨rfl, fun _ => rfl⟩
+
+/-- witnesses: a self-join and a shared-prefix join desugar to joins with a fresh copy of the source -/
+example : desugar [.int 1] [.plain (.mapValues .neg), .joinShared .inner [] []]
+    = [.mapValues .neg, .join .inner [.int 1] [.mapValues .neg]] := rfl
+example : desugar [.int 1] [.plain .gbk, .joinShared .left [.glen] [.gsum], .plain .unkey]
+    = [.gbk, .glen, .join .left [.int 1] [.gbk, .gsum], .unkey] := rfl
+example : runSeqX [.pair (.int 1) (.int 10), .pair (.int 2) (.int 20), .pair (.int 1) (.int 11)]
+      [.joinShared .inner [] [], .plain (.combineValues .count)]
+    = .ok [.pair (.int 1) (.int 4), .pair (.int 2) (.int 1)] := by rfl
 
 end IB.Join
